@@ -57,4 +57,28 @@ pub fn run(r: &mut Report) {
         r.case("pae-total-exhaustive", json!({"alphabet": "space 0 1 2 9 a 0xff", "max_len_after_prefix": 6, "inputs": total}),
                "no panic", format!("{} panics, first: {:?}", panics, first.map(|b| String::from_utf8_lossy(&b).to_string())), panics == 0);
     }
+    // pseudo-random pairs (seeded from VERIF_SEED): round trip and injectivity; pseudo-random byte strings: a pair or an error
+    {
+        struct Rng(u64);
+        impl Rng { fn next(&mut self) -> u64 { let mut x = self.0; x ^= x << 13; x ^= x >> 7; x ^= x << 17; self.0 = x; x } fn below(&mut self, n: u64) -> u64 { self.next() % n } }
+        let seed: u64 = std::env::var("VERIF_SEED").ok().and_then(|s| s.parse().ok()).unwrap_or(0);
+        let mut rng = Rng(0xA0761D6478BD642F ^ seed.wrapping_mul(0xE7037ED1A0B428DB) | 1);
+        let tchars: Vec<char> = "ab 019/:\u{e9}\u{20ac}\u{1F600}".chars().collect();
+        let n = crate::util::scale(2000, 50000);
+        let mut seen: std::collections::HashMap<Vec<u8>, (String, Vec<u8>)> = std::collections::HashMap::new();
+        let mut bad = 0; let mut first = String::new();
+        for _ in 0..n {
+            let t: String = (0..rng.below(8)).map(|_| tchars[rng.below(tchars.len() as u64) as usize]).collect();
+            let p: Vec<u8> = (0..rng.below(12)).map(|_| match rng.below(4) { 0 => b' ', 1 => b'0' + rng.below(10) as u8, _ => rng.below(256) as u8 }).collect();
+            let packed = DSSEVersion::V1.pack(&p, t.clone());
+            let res = no_panic(|| DSSEVersion::V1.unpack(&packed));
+            let ok = matches!(&res, Ok(Ok((pp, tt))) if *pp == p && *tt == t);
+            let collide = matches!(seen.get(&packed), Some((t2, p2)) if *t2 != t || *p2 != p);
+            seen.insert(packed, (t.clone(), p.clone()));
+            if !ok || collide { bad += 1; if first.is_empty() { first = format!("type={:?} payload={:?} -> {:?} collide={}", t, p, res.map(|x| x.map_err(|e| e.to_string())), collide); } }
+            let junk: Vec<u8> = { let mut j = b"DSSEv1 ".to_vec(); j.extend((0..rng.below(14)).map(|_| match rng.below(3) { 0 => b' ', 1 => b'0' + rng.below(10) as u8, _ => rng.below(256) as u8 })); j };
+            if no_panic(|| DSSEVersion::V1.unpack(&junk).map(|_| ()).map_err(|_| ())).is_err() { bad += 1; if first.is_empty() { first = format!("panic on {:?}", junk); } }
+        }
+        r.case("pae-random", json!({"pairs": n, "seed": seed}), "every pair round-trips, no two pairs collide, junk decodes to a pair or an error", format!("{} failures; first: {}", bad, first), bad == 0);
+    }
 }
